@@ -485,6 +485,14 @@ func runC15(c *Ctx) {
 		})
 		c.check(good && n > 0, "copy-drops-opt", cno.Pos(), "additional records are copied only when they are not OPT", "the cache's copy keeps OPT records: cached answers carry a stale OPT that is then duplicated")
 	}
+	// ... in every section, and for entries that come from a dump too (D16)
+	checkCacheNeverStoresOpt(c)
+	if rd := c.fn(relCachePlugin, "Cache", "readDump"); rd != nil {
+		checkDumpReaderFields(c, rd)
+	}
+	// a reply whose rcode needs the OPT is never packed without one (D20)
+	c.cur = c.Prop + "-R5"
+	checkExtRcodeSendable(c)
 
 	// ---------------------------------------------------------------- R8
 	c.rule("R8", "a copy of a query context has its own query message (and so its own upstream OPT): options a plugin adds in one branch do not appear in the others", 2)
